@@ -119,7 +119,7 @@ def run(c):
     progs += programs(rnd, 12 if c.quick else 250)
     deadline = time.time() + (10 if c.quick else 200)
     explored = dc.explore_into(runs, c, progs, 6 if c.quick else 150, 4 if c.quick else 40, deadline, bound=1 if c.quick else 2,
-                               max_steps=2500)
+                               max_steps=2500, gap_runs=6)
     laps["explore_s"] = round(time.time() - t0 - laps["model+replay_s"], 1)
     dc.validate(c, runs, INVS, describe)
     laps["validate_s"] = round(time.time() - t0 - laps["model+replay_s"] - laps["explore_s"], 1)
